@@ -698,6 +698,128 @@ fn junk_steps(g: &mut Gen) -> Vec<Value> {
   steps
 }
 
+/// a random rope program: piece table + two expression trees
+fn rope_program(g: &mut Gen) -> Value {
+  let np = g.rng.gen_range(2..7);
+  let mut pieces: Vec<String> = vec![String::new()];
+  for _ in 1..np {
+    let n = g.rng.gen_range(0..5);
+    let mut s = String::new();
+    for _ in 0..n {
+      s.push(g.pick(&['a', 'b', '\n', '\n', ' ', '\u{e9}', '\u{20ac}', '\u{1F600}', ';']));
+    }
+    pieces.push(s);
+  }
+  fn len_of(e: &Value, pieces: &[String]) -> usize {
+    match e[0].as_str().unwrap() {
+      "new" => 0,
+      "from" => pieces[e[1].as_u64().unwrap() as usize].len(),
+      "from_iter" => e[1].as_array().unwrap().iter().map(|p| pieces[p.as_u64().unwrap() as usize].len()).sum(),
+      "add" => len_of(&e[1], pieces) + pieces[e[2].as_u64().unwrap() as usize].len(),
+      "append" => len_of(&e[1], pieces) + len_of(&e[2], pieces),
+      "slice" => (e[3].as_u64().unwrap() - e[2].as_u64().unwrap()) as usize,
+      _ => 4,
+    }
+  }
+  fn expr(g: &mut Gen, pieces: &[String], depth: u32) -> Value {
+    let np = pieces.len() as u64;
+    if depth == 0 || g.rng.gen_bool(0.3) {
+      return match g.rng.gen_range(0..5) {
+        0 => json!(["new"]),
+        1 | 2 => json!(["from", g.rng.gen_range(0..np)]),
+        _ => {
+          let k = g.rng.gen_range(0..5);
+          let ps: Vec<u64> = (0..k).map(|_| g.rng.gen_range(0..np)).collect();
+          json!(["from_iter", ps])
+        }
+      };
+    }
+    match g.rng.gen_range(0..8) {
+      0 | 1 => json!(["add", expr(g, pieces, depth - 1), g.rng.gen_range(0..np)]),
+      2 | 3 | 4 => json!(["append", expr(g, pieces, depth - 1), expr(g, pieces, depth - 1)]),
+      5 | 6 => {
+        let e = expr(g, pieces, depth - 1);
+        let n = len_of(&e, pieces) as u64;
+        let a = g.rng.gen_range(0..=n + 1);
+        let b = g.rng.gen_range(a..=n + 1);
+        json!(["slice", e, a, b])
+      }
+      _ => json!(["line", expr(g, pieces, depth - 1), g.rng.gen_range(0..3)]),
+    }
+  }
+  let a = expr(g, &pieces, 3);
+  let b = if g.rng.gen_bool(0.2) { a.clone() } else { expr(g, &pieces, 2) };
+  let pj: Vec<Value> = pieces.iter().map(|p| bytes_json(p.as_bytes())).collect();
+  json!({"kind": "rope", "pieces": pj, "steps": [{"op": "rope_obs", "a": a, "b": b}]})
+}
+
+/// SourceMap values with arbitrary Unicode strings, and hand-built documents
+fn json_steps(g: &mut Gen) -> Vec<Value> {
+  let ustr = |g: &mut Gen| -> Value {
+    let n = g.rng.gen_range(0..8);
+    let mut s = String::new();
+    for _ in 0..n {
+      let c = match g.rng.gen_range(0..14) {
+        0 => '"',
+        1 => '\\',
+        2 => char::from_u32(g.rng.gen_range(0..0x20)).unwrap(),
+        3 => '\u{7f}',
+        4 => '\u{2028}',
+        5 => '\u{2029}',
+        6 => '\u{1F600}',
+        7 => '\u{e9}',
+        8 => '/',
+        9 => loop {
+          if let Some(c) = char::from_u32(g.rng.gen_range(0..0x11_0000)) {
+            break c;
+          }
+        },
+        _ => (b'a' + g.rng.gen_range(0..26)) as char,
+      };
+      s.push(c);
+    }
+    bytes_json(s.as_bytes())
+  };
+  let strs = |g: &mut Gen| -> Vec<Value> { (0..g.rng.gen_range(0..4)).map(|_| ustr(g)).collect() };
+  let opt = |g: &mut Gen| -> Vec<Value> { if g.rng.gen_bool(0.5) { vec![ustr(g)] } else { vec![] } };
+  let contents: Vec<Value> = match g.rng.gen_range(0..4) {
+    0 => vec![],
+    1 => (0..g.rng.gen_range(1..3)).map(|_| bytes_json(b"")).collect(),
+    _ => strs(g),
+  };
+  let m = json!({"m": ustr(g), "sources": strs(g), "contents": contents, "names": strs(g),
+                 "root": opt(g), "file": opt(g), "dbg": opt(g)});
+  let mut steps = vec![json!({"op": "to_json", "map": m})];
+  // a document: random subset of keys in random order, null entries
+  let entries = |g: &mut Gen| -> Vec<Value> {
+    (0..g.rng.gen_range(0..4)).map(|_| if g.rng.gen_bool(0.3) { json!([]) } else { json!([ustr(g)]) }).collect()
+  };
+  let mut fields = vec![
+    json!(["version", "num", 3]),
+    json!(["sources", if g.rng.gen_bool(0.15) { "null" } else { "strs" }, entries(g)]),
+    json!(["sourcesContent", if g.rng.gen_bool(0.15) { "null" } else { "strs" }, entries(g)]),
+    json!(["names", if g.rng.gen_bool(0.15) { "null" } else { "strs" }, entries(g)]),
+    json!(["mappings", if g.rng.gen_bool(0.08) { "null" } else { "str" }, ustr(g)]),
+    json!(["file", if g.rng.gen_bool(0.2) { "null" } else { "str" }, ustr(g)]),
+    json!(["sourceRoot", if g.rng.gen_bool(0.2) { "null" } else { "str" }, ustr(g)]),
+    json!(["debugId", if g.rng.gen_bool(0.2) { "null" } else { "str" }, ustr(g)]),
+    json!(["x_unknown", "strs", entries(g)]),
+  ];
+  // "null"-kind fields carry a dummy value
+  for f in fields.iter_mut() {
+    if f[1] == "null" {
+      f[2] = json!(0);
+    }
+  }
+  fields.retain(|_| g.rng.gen_bool(0.8));
+  for i in (1..fields.len()).rev() {
+    let j = g.rng.gen_range(0..=i);
+    fields.swap(i, j);
+  }
+  steps.push(json!({"op": "parse_doc", "fields": fields}));
+  steps
+}
+
 /// arbitrary bytes for the three JSON entry points
 fn parser_steps(g: &mut Gen) -> Vec<Value> {
   let valid: &[&str] = &[
@@ -830,8 +952,20 @@ pub fn generate(kind: &str, seed: u64, count: usize, out: &str) {
   let mut pid = 0u64;
   while (pid as usize) < count {
     g.reset_program();
-    if kind == "decoder_junk" || kind == "parser_bytes" {
-      let steps = if kind == "decoder_junk" { junk_steps(&mut g) } else { parser_steps(&mut g) };
+    if kind == "ropes" {
+      let prog = rope_program(&mut g);
+      let mut prog = prog;
+      prog["pid"] = json!(pid);
+      writeln!(f, "{}", prog).unwrap();
+      pid += 1;
+      continue;
+    }
+    if kind == "decoder_junk" || kind == "parser_bytes" || kind == "json_maps" {
+      let steps = match kind {
+        "decoder_junk" => junk_steps(&mut g),
+        "parser_bytes" => parser_steps(&mut g),
+        _ => json_steps(&mut g),
+      };
       writeln!(f, "{}", json!({"pid": pid, "steps": steps})).unwrap();
       pid += 1;
       continue;
